@@ -435,7 +435,7 @@ func sInstallDurable(c *Ctx, rule string) {
 		engine.Event("copy", c.P.IsCallTo(engine.Is("io.Copy"))),
 		engine.PredCond("copyErr", func(cd engine.Cond) (bool, int) {
 			if cd.IsRel && strings.HasPrefix(cd.X, "io.Copy(recv.snapshots.Create(") && strings.HasSuffix(cd.X, "#1") && cd.Y == "nil" {
-				if cd.EdgeOrd(true) == engine.LT|engine.GT {
+				if isNEc(cd) {
 					return true, engine.True
 				}
 				return true, engine.False
@@ -443,8 +443,9 @@ func sInstallDurable(c *Ctx, rule string) {
 			return false, 0
 		}),
 		engine.PredCond("short", func(cd engine.Cond) (bool, int) {
+			cd, _ = cd.WithY(func(d string) bool { return d == "p2.Size" })
 			if cd.IsRel && strings.HasSuffix(cd.X, "#0") && strings.HasPrefix(cd.X, "io.Copy(") && cd.Y == "p2.Size" {
-				if cd.EdgeOrd(true) == engine.LT|engine.GT {
+				if isNEc(cd) {
 					return true, engine.True
 				}
 				return true, engine.False
@@ -454,7 +455,7 @@ func sInstallDurable(c *Ctx, rule string) {
 		engine.Event("close", c.P.IsCallTo(engine.IfaceMethod("Close", "io.Closer", "SnapshotSink", "io.WriteCloser"))),
 		engine.PredCond("closeErr", func(cd engine.Cond) (bool, int) {
 			if cd.IsRel && strings.HasSuffix(cd.X, ".Close()") && strings.HasPrefix(cd.X, "recv.snapshots.Create(") && cd.Y == "nil" {
-				if cd.EdgeOrd(true) == engine.LT|engine.GT {
+				if isNEc(cd) {
 					return true, engine.True
 				}
 				return true, engine.False
@@ -479,7 +480,7 @@ func sInstallDurable(c *Ctx, rule string) {
 		}),
 		engine.PredCond("restoreErr", func(cd engine.Cond) (bool, int) {
 			if cd.IsRel && strings.Contains(cd.X, "restoreFuture") && strings.HasSuffix(cd.X, ".Error()") && cd.Y == "nil" {
-				if cd.EdgeOrd(true) == engine.LT|engine.GT {
+				if isNEc(cd) {
 					return true, engine.True
 				}
 				return true, engine.False
